@@ -20,6 +20,92 @@ def flip(sig):
     return s if found[0] else None
 
 
+JS_OPT_LIB = r"""
+#[diplomat::bridge]
+mod ffi {
+    use diplomat_runtime::DiplomatOption;
+    #[diplomat::opaque]
+    pub struct Host(u8);
+    impl Host {
+%s
+    }
+}
+"""
+JS_OPT_PRIMS = [("u8", "7", "0"), ("i32", "-5", "0"), ("u16", "513", "0"), ("f64", "2.5", "0"), ("f32", "1.5", "0"), ("bool", "true", "false"), ("i8", "-1", "0"), ("u32", "9", "0")]
+
+
+def js_option_args_leg(rep, wd):
+    """is_ok true EXACTLY for Some, seen from the JS caller (legacy wasm ABI, the default: an Option<primitive> argument is flattened
+    to (payload, is_ok) by the runtime's optionToArgsForCalling).  Present values -- also 0 and false -- must arrive with is_ok = 1 and
+    the payload; every way JS has of saying "absent" (null, undefined, the argument left out) with is_ok = 0; the std and the
+    DiplomatOption spelling of the same parameter must pass identical arguments."""
+    import c08
+    ms = []
+    for i, (pt, _, _) in enumerate(JS_OPT_PRIMS):
+        ms.append("        pub fn std%d(&self, v: Option<%s>) {}" % (i, pt))
+        ms.append("        pub fn dip%d(&self, v: DiplomatOption<%s>) {}" % (i, pt))
+    src = os.path.join(wd, "jsopt.rs")
+    open(src, "w").write(JS_OPT_LIB % "\n".join(ms))
+    out = os.path.join(wd, "js_optargs")
+    t = lib.run_tool("js", src, out, timeout=600)
+    if t["rc"] != 0:
+        rep.violation({"leg": "js-option-args", "what": "js backend failed"}, {"stderr": t["stderr"][-1500:]})
+        return
+    open(os.path.join(out, "diplomat-wasm.mjs"), "w").write(c08.STUB)
+    lines = ['import wasm, { calls } from "./diplomat-wasm.mjs";', 'import * as rt from "./diplomat-runtime.mjs";', 'import { Host } from "./Host.mjs";',
+             "const host = new Host(rt.internalConstructor, 0x100, []);",
+             "function run(name, sym, how, f) { calls.length = 0; let threw = null; try { f(); } catch (e) { threw = String(e).slice(0, 120); } "
+             "const cl = calls.find(x => x[0] === sym); console.log(JSON.stringify({m: name, how, threw, args: cl ? cl[1].map(a => typeof a === 'bigint' ? Number(a) : a) : null})); }"]
+    expect = {}
+    for i, (pt, some, zero) in enumerate(JS_OPT_PRIMS):
+        for sp in ("std", "dip"):
+            m = "%s%d" % (sp, i)
+            sym = "Host_%s" % m
+            for how, arg, present, val in (("some", some, 1, some), ("zero", zero, 1, zero), ("null", "null", 0, None), ("undefined", "undefined", 0, None), ("omitted", "", 0, None)):
+                lines.append("run(%s, %s, %s, () => host.%s(%s));" % (json.dumps(m), json.dumps(sym), json.dumps(how), m, arg))
+                expect[(m, how)] = (present, val, pt)
+    drv = os.path.join(out, "optdriver.mjs")
+    open(drv, "w").write("\n".join(lines) + "\n")
+    pr = lib.sh(["node", drv], timeout=300)
+    rows = [json.loads(l) for l in pr.stdout.splitlines() if l.startswith("{")]
+    if len(rows) != len(expect):
+        rep.violation({"leg": "js-option-args", "what": "generated JS fails to run in node"}, {"stderr": pr.stderr[-2000:], "rows": len(rows)})
+        return
+    seen = {}
+    for r in rows:
+        present, val, pt = expect[(r["m"], r["how"])]
+        key = {"leg": "js-option-args", "prim": pt, "spelling": r["m"][:3], "argument": r["how"]}
+        a = r["args"]
+        # receiver, payload, is_ok, then the legacy ABI's padding slots (one per padding byte after the flag: docs/wasm_abi_quirks.md)
+        if r["threw"] or a is None or len(a) < 3 or any(x != 0 for x in a[3:]):
+            rep.violation(dict(key, what="call throws, passes too few arguments or non-zero padding"), r)
+            continue
+        flag = a[2]
+        if bool(flag) != bool(present):
+            rep.violation(dict(key, what="is_ok is %s for %s argument" % (flag, "a present" if present else "an absent")), r)
+        elif present:
+            # the legacy ABI passes the payload of a flattened option as the integer holding its bytes (the option is a union)
+            import struct
+            if pt == "bool":
+                want = 1 if val == "true" else 0
+            elif pt == "f32":
+                want = struct.unpack("<I", struct.pack("<f", float(val)))[0]
+            elif pt == "f64":
+                want = struct.unpack("<Q", struct.pack("<d", float(val)))[0]
+            else:
+                want = int(val) % (1 << (8 * {"8": 1, "6": 2, "2": 4}[pt[-1]]))
+            got = float(a[1])
+            if got != float(want):
+                rep.violation(dict(key, what="payload of a present option differs"), dict(r, expected=want))
+        seen[(r["m"][3:], r["how"], r["m"][:3])] = a if present else [len(a)] + a[2:]
+    for (i, how, sp), a in seen.items():
+        if sp == "std" and seen.get((i, how, "dip")) != a:
+            rep.violation({"leg": "js-option-args", "what": "arguments differ between spellings", "argument": how, "prim": JS_OPT_PRIMS[int(i)][0]},
+                          {"std": a, "dipl": seen.get((i, how, "dip"))})
+    rep.evaluations += len(rows)
+    rep.extra["js_option_argument_calls"] = len(rows)
+
+
 def run(rep, tier):
     wd = rep.wd
     rep.rule = ("cases = every Option payload (14 primitives, enum, 3 structs, unit) in parameter and return position in BOTH spellings, "
@@ -110,6 +196,7 @@ def run(rep, tier):
     for std, evs in res.items():
         ncmp += c02.check_events_cpp(rep, g, cpp_entries, evs, std)
     rep.extra["cpp_entries"] = len(cpp_entries)
+    js_option_args_leg(rep, wd)
     rep.extra["spelling_pairs"] = len(pairs)
     rep.evaluations += ncmp
     rep.traces += ncmp
